@@ -4,7 +4,7 @@
    backtracks (it never commits), so the number parsers decide. *)
 From TV Require Import Base.Prelude Base.Utf8 Base.Winnow Gen.Consts.
 From TV Require Import Model.Trivia Model.Strings Model.Datetime Model.Numbers Model.Tree Model.Parse Model.Document.
-From TV Require Import Model.Write Proofs.NumbersRT_Lex Proofs.NumbersRT_Int.
+From TV Require Import Model.Write Proofs.Eoi Proofs.NumbersRT_Lex Proofs.NumbersRT_Int.
 Require Import Lia ZifyBool ZifyN ZifyNat.
 
 (* ---- date_time backtracks on number-like text ---------------------------------------------------- *)
@@ -334,10 +334,10 @@ Lemma parse_value_number t b tl (s : scalar) :
   exists r d, parse_value_raw t = POk (VScalar s r d).
 Proof.
   intros Ht Hn Harm.
-  unfold parse_value_raw, parse_all, bind, value_. cbn [value_f].
+  unfold parse_value_raw. rewrite parse_all_eoi_unfold. unfold value_. cbn [value_f].
   unfold value_step, pmap, with_span.
   rewrite (value_body_number _ (new_input t) b tl); [|rewrite Ht; reflexivity | exact Hn].
-  rewrite Harm. unfold eof, end_input. cbn [rest]. unfold ret. cbn [lift_outcome].
+  rewrite Harm. unfold end_input. cbn [rest]. cbn [lift_outcome].
   unfold apply_raw, scalar_value, value_decorate. eauto.
 Qed.
 
